@@ -84,7 +84,7 @@ class C24(Spec):
     pid = 'C24'
     imports = ['C01.Model', 'C24.Model']
     impl_script = 'props/C24/impl.py'
-    exactness = 'E1 (relevance sets, closure certificate on the real sets); results on/off: bitwise for one-pass / direct solvers on feed-forward specs, 1e-9 otherwise'
+    exactness = 'E1 (relevance sets, closure certificate on the real sets); results on/off: bitwise for LinearRunOnce on feed-forward specs, 1e-9 (+ iterative-solver slack) otherwise'
     shard = 100
     impl_jobs = 4
     impl_timeout = 2500
@@ -102,7 +102,7 @@ class C24(Spec):
                    'parallel_deriv_color needs MPI and is out of scope; multi-seed soundness is the union lemma']
 
     def gen(self, tier, rng):
-        n = 80 if tier == 'quick' else 1000
+        n = 120 if tier == 'quick' else 1500
         cases = []
         for k in range(n):
             cpl = (k % 5 == 4)
